@@ -146,6 +146,11 @@ def findVariant (ctx : Ctx) (mode : Mode) (msg : Bytes) : Option Selector :=
   | some v => some v.2.2
   | none => none
 
+/-- `except KeyError as err: raise UBXMessageError(…)` -/
+def keyToMsg {α : Type} : R α → R α
+  | .error .keyE => .error .ubxMessage
+  | x => x
+
 /-- `_get_dict`: KeyError ↦ UBXMessageError -/
 def getDict (ctx : Ctx) (cls id : Bytes) (mode : Mode) (kw : Kw) : R Defn :=
   let msg := cls ++ id
@@ -156,9 +161,7 @@ def getDict (ctx : Ctx) (cls id : Bytes) (mode : Mode) (kw : Kw) : R Defn :=
       match identityOf ctx cls id (kwPayload? kw <|> some []) with
       | .known n => defnByName (tableOf ctx mode) n
       | .nominal => if mode = .get then .ok [] else .error .keyE
-  match r with
-  | .error .keyE => .error .ubxMessage
-  | x => x
+  keyToMsg r
 
 /-- `_do_len_checksum` -/
 def lenChecksum (cls id : Bytes) (payload : Option Bytes) : R (Bytes × Bytes) :=
